@@ -3,6 +3,8 @@ open AcmedVerif.Props.C01Ident
 #print axioms punycode_ascii
 #print axioms punycode_total_partial
 #print axioms punycode_total_full_is_false
+#print axioms idna_total
+#print axioms idna_total_old_is_false
 #print axioms idna_label_shape
 #print axioms idna_ascii_idempotent
 #print axioms idna_idempotent
